@@ -69,6 +69,12 @@ def gen_cases(rng, tier, scale):
                                          ('{{#if a}}A{{else if b}}B{{else with o.zz}}C{{/if}}', {'o': {}}, 'o.zz'),
                                          ('{{#each l}}{{#if this}}y{{else each ../nope}}n{{/if}}{{/each}}', {'l': [0]}, '../nope')]):
         cases.append(rcase(f'cl{k4}', tpl, d, pre=['strict 1'], entry=4, kind='hookstrict', path=path, tags=['chain-last-link-missing']))
+    # a path that passes through an EXISTING null (or scalar) before its last segment designates nothing
+    for k6, (tpl, d, path) in enumerate([('{{user.name}}', {'user': None}, 'user.name'), ('{{list.[0].a}}', {'list': [None]}, 'list.[0].a'),
+                                         ('{{#each list}}{{a}}{{/each}}', {'list': [None]}, 'a'), ('{{#with outer}}{{inner.x}}{{/with}}', {'outer': {'inner': None}}, 'inner.x'),
+                                         ('{{a.b.c}}', {'a': {'b': None}}, 'a.b.c'), ('{{s.len}}', {'s': 'str'}, 's.len'), ('{{n.x}}', {'n': 5}, 'n.x'),
+                                         ('{{#each o}}{{this.k}}{{/each}}', {'o': {'p': None}}, 'this.k'), ('{{@root.user.name}}', {'user': None}, '@root.user.name')]):
+        cases.append(rcase(f'nl{k6}', tpl, d, pre=['strict 1'], entry=4, kind='hookstrict', path=path, tags=['through-null']))
     # an @-variable reached through more `../` than there are enclosing blocks designates nothing: MissingVariable naming it
     for k5, (tpl, d, path) in enumerate([('{{#each a}}{{@../../index}}{{/each}}', {'a': [1, 2]}, '@../../index'),
                                          ('{{#each a}}{{@../index}}{{/each}}', {'a': [1]}, '@../index'),
